@@ -30,6 +30,16 @@ theorem index_cache_expired_iff (now : Int) (b : IxBuilder) :
     ixExpiredCache now b = true ↔ b.duration ≠ 0 ∧ b.endTime + b.cacheDuration < now :=
   ixExpiredCache_iff now b
 
+/-- **index_expired_iff_int64**: for every int64 clock reading, index end and duration the test of
+the code equals the statement over ℤ (see `expired_iff_int64`). -/
+theorem index_expired_iff_int64 (now : Int) (b : IxBuilder) (_hn : InI64 now) (_hd : InI64 b.duration) (_he : InI64 b.endTime) :
+    ixExpired now b = true ↔ b.duration ≠ 0 ∧ b.endTime + b.duration < now :=
+  ixExpired_iff now b
+
+example : ixExpired 1790000000000000000 ⟨99999 * 86400000000000, 1790000000000000000 - 3600000000000, 10, 0⟩ = false ∧
+    ixExpired 1790000000000000000 ⟨9223372036854775807, 1790000000000000000 - 3600000000000, 10, 0⟩ = false ∧
+    ixExpired 1790000000000000000 ⟨1, 1790000000000000000 - 3600000000000, 10, 0⟩ = true := by decide
+
 example : ixExpired 101 ⟨50, 50, 10, 0⟩ = true ∧ ixExpired 100 ⟨50, 50, 10, 0⟩ = false ∧
     ixExpired 100000 ⟨0, 50, 10, 0⟩ = false := by decide
 
